@@ -195,6 +195,7 @@ class Engine(Core, Expr, Calls, Builtins, Stmts):
         self.iter_facts_added = set()
         self.kept_cache = set()
         self.frame_sites = set()
+        self.alias_cache = {}
         self.func_summ = set()
         self.notes = []
         self.lemma_sink = None
@@ -327,7 +328,10 @@ class Engine(Core, Expr, Calls, Builtins, Stmts):
                     self.emit(Obligation(con.key, 'acc', label, con.returns_iff[1], list(s.pc), g,
                                          origin='normal return implies the acceptance predicate', path_kind='return'))
                 for (lam, props, ck) in con.ensures:
-                    g = self.eval_clause(lam, renv, s)
+                    try:
+                        g = self.eval_clause(lam, renv, s)
+                    except ClauseNotApplicable:
+                        continue
                     self.emit(Obligation(con.key, ck, label, props, list(s.pc), g,
                                          origin=f'postcondition [{ck}] on normal return', path_kind='return'))
             elif kind == 'raise':
